@@ -39,6 +39,11 @@ def _derives_from_call(f, op, pattern, depth=0, seen=None):
             c = d[2]
             if re.search(pattern, c.get("res") or ""):
                 return True
+            # closures handed to Option/Result combinators (`.and_then(|ws| p.strip_prefix(ws).ok())`)
+            for cid, loc in c.get("clos", []):
+                cf = f.crate.fns.get(cid)
+                if cf is not None and any(re.search(pattern, c2.get("res") or "") for _b, c2 in cf.calls()):
+                    return True
             for a in c["args"][:1]:
                 if _derives_from_call(f, a, pattern, depth + 1, seen):
                     return True
@@ -452,4 +457,33 @@ def r10i_no_textual_path_prefix(ctx):
                     r.violate("R10i|%s|textual prefix test between paths" % f.id,
                               "string prefix test between two rendered paths at %s" % crate.span_str(c["span"]))
     r.floor("path ancestor tests", n, 5)
+    return r
+
+
+def r10a2_classification_relative(ctx):
+    r = Result("R10a2", "a substring test of a rendered path against a directory-name literal (e.g. \"site-packages\") is made on the "
+                        "path relative to the workspace root (`strip_prefix`), not on the absolute path: otherwise the classification "
+                        "changes when the workspace lives under a directory whose name contains the literal")
+    crate = ctx.bin
+    n = 0
+    for f in crate.real_fns():
+        for bb, c in f.calls():
+            res = c.get("res") or ""
+            if c["span"][4].startswith("macro:") or not res.endswith("<impl str>::contains") or len(c["args"]) < 2:
+                continue
+            if not _derives_from_call(f, c["args"][0], r"Path::to_string_lossy$|Path::to_str$|Path::display$"):
+                continue
+            lits = literals_reaching(f, c["args"][1])
+            lits = {l for l in lits if "." not in l and len(l) > 2}
+            if not lits:
+                continue
+            n += 1
+            key = "R10a2|%s|contains(%s) on an absolute path" % (f.id, ",".join(sorted(lits)))
+            if _derives_from_call(f, c["args"][0], r"Path::strip_prefix$") or _derives_from_call(f, c["args"][0], r"::relative_to_workspace$"):
+                r.ok(sample={"fn": f.id.split("::")[-1], "literal": sorted(lits), "relative": True})
+            elif key in REVIEWED:
+                r.review(key, REVIEWED[key])
+            else:
+                r.violate(key, "`%s` is tested on the absolute path in %s at %s" % (sorted(lits), f.id, crate.span_str(c["span"])))
+    r.counts["sites"] = n
     return r
